@@ -36,6 +36,7 @@ var (
 	fRaceLog = flag.String("verif.racelog", "", "race detector log prefix (C19)")
 	fTrace   = flag.Bool("verif.trace", false, "print the rendered trace in replay mode")
 	fNoMin   = flag.Bool("verif.nomin", false, "do not minimise")
+	fOwns    = flag.String("verif.owns", "", "extra owned clause prefix (debugging)")
 	fCensus  = flag.Bool("verif.census", false, "only count clause hits, report nothing")
 	fKeepGoing = flag.Bool("verif.keepgoing", false, "continue after a violation (collect all clauses)")
 )
@@ -78,6 +79,9 @@ func (p *Property) owns(clause string) bool {
 		if strings.HasPrefix(clause, o) {
 			return true
 		}
+	}
+	if *fOwns != "" && strings.HasPrefix(clause, *fOwns) {
+		return true
 	}
 	return false
 }
@@ -639,6 +643,16 @@ func renderTrace(ep *Episode) []string {
 			st = "runnable"
 		}
 		out = append(out, fmt.Sprintf("task %d %s lib=%v: %s (last site %s)", t.ID, t.Name, t.Lib, st, siteStr(t.LastSite)))
+	}
+	for _, t := range ep.Res.Tasks {
+		if t.PanicVal != nil {
+			out = append(out, fmt.Sprintf("panic in task %d (%s): %v", t.ID, t.Name, t.PanicVal))
+			for _, l := range strings.Split(t.PanicStack, "\n") {
+				if strings.Contains(l, "varmq") && !strings.Contains(l, "simrt") {
+					out = append(out, "    "+strings.TrimSpace(l))
+				}
+			}
+		}
 	}
 	for _, v := range ep.Viols {
 		out = append(out, fmt.Sprintf("VIOL %s @%d: %s", v.Clause, v.Seq, v.Msg))
